@@ -11,12 +11,18 @@ The model takes resolved edges: for every table line the harness asks the real c
 (Action.processArgs + Eups.findProductFromVRO under the line's VRO, exactly as Table.dependencies does) and,
 independently, computes the same from the generator's data (explicit version -> that version iff declared;
 bare name -> the version tagged current); the two must agree.
+
+Second family (harness/c13walk.py; coq/Model/DepWalk.v, DepWalkText.v): NO fed edges.  The model receives the world
+(stacks, declarations per flavor, chain files, the TEXT of every table file) and the request, resolves every line
+itself with the resolver of C03 and walks; compared with the real listing obtained the way eups list --dependencies
+obtains it.  See the docstring of c13walk.
 """
 import json
 import os
 
 import common
 import stackgen
+import c13walk
 from common import enc
 
 # ------------------------------------------------------------------ implementation driver (in a child)
@@ -567,7 +573,9 @@ def corpus_specs():
     if os.path.isdir(d):
         for f in sorted(os.listdir(d)):
             if f.endswith(".json"):
-                out.append(json.load(open(os.path.join(d, f)))["input"]["spec"])
+                inp = json.load(open(os.path.join(d, f)))["input"]
+                if "spec" in inp:           # the witnesses of the second family (text worlds) are run by c13walk
+                    out.append(inp["spec"])
     return out
 
 
@@ -579,9 +587,19 @@ def setup_ctx(ctx):
                 "stacks; for every declared product getDependentProducts(topological F/T) and checkCycles, for every "
                 "product name and version mentioned uses(x[,v]); one evaluation = one such call compared with the model "
                 "as an exact ordered list of (name, version, optional, depth); a graph is non-trivial when it declares at "
-                "least 3 products and some product reaches at least 2; distinct = distinct graph")
+                "least 3 products and some product reaches at least 2; distinct = distinct graph.  "
+                "Second family (no fed edges; keys walk/...): text worlds - the same graph shapes respelled with dotted versions, "
+                "spread over one or two stacks (a product sometimes declared in both), products of a name declared under the "
+                "running flavor Linux64 or the fall-back flavor generic, tags current / beta per stack, table lines of the forms "
+                "name, name version, name version [expr], name relop version, name [expr], with -j, -k, -t beta, setupOptional, "
+                "blocks on the exact type (an expanded table) and on the flavor, a few constructs outside the model; requests "
+                "as eups list --dependencies takes them: name version, name alone, name -t tag, name version -t beta, each plain, "
+                "--topological, --topological --checkCycles, sometimes -e or -T build; one evaluation = one listing compared "
+                "with the model's as an exact ordered list of (name, version, found?, optional, depth); every look-up of the walk "
+                "(Eups.findProductFromVRO: request, preferred tags in force, product found with stack and flavor) compared with "
+                "the model's resolver (traces_validated); a sample of the requests also through eups.cmd.EupsCmd")
     ctx.trusted_base = common.COMMON_TRUSTED + [
-        "resolved edges are an input of the model: the harness asks the real code what each table line denotes "
+        "first family only: resolved edges are an input of the model: the harness asks the real code what each table line denotes "
         "(Action.processArgs + Eups.findProductFromVRO, as Table.dependencies does) and checks the answer against its own "
         "resolution of the generated data (explicit version iff declared, bare name -> tag current)",
         "modelled, not verified: iteration order of python sets of Products (unobservable: components and layers are compared "
@@ -596,7 +614,13 @@ def setup_ctx(ctx):
         "product names and versions are made of word characters (no '-' ':' and no version spelled None), as the string keys "
         "name-version / name:version of recursiveDict and Uses assume",
         "the default product implicitProducts is not declared: every table ends with a silent optional dependency on it, "
-        "which the model receives as an ordinary unresolved edge"]
+        "which the model receives as an ordinary unresolved edge",
+        "second family: a (name, version) is declared under one flavor, and with one table text when it is declared in two "
+        "stacks (the model keys tables by name and version); version names are dotted numbers; Eups built as cmd.createEups "
+        "builds it for eups list (after selectVRO it is in exact mode: the shipped VRO starts with type:exact); counted as "
+        "outside the model, not compared: --vro / unsetupRequired / qualified tag names on a table line, a pinned relational "
+        "expression (topological listing whose only product of some name is the stub of an unresolved relational line), a "
+        "request whose root findProducts does not determine"]
 
 
 def run(ctx):
@@ -615,10 +639,13 @@ def run(ctx):
     for i in range(0, len(specs), 400):
         _, fl = run_specs(ctx, specs[i:i + 400])
         fails_by_spec += fl
+    # second family: the composed model (walk + resolver + table texts), no fed edges
+    c13walk.run_family(ctx, ctx.size(70, 1500))
+    c13walk.shrink_failures(ctx)
     # shrink the first unknown failure of each kind so that the replay is readable
     seen = set()
     for f in list(ctx.failures):
-        if ctx._known(f) or f["kind"] in seen or len(seen) >= 3:
+        if ctx._known(f) or f["kind"] in seen or len(seen) >= 3 or "spec" not in f["input"]:
             continue
         seen.add(f["kind"])
         small = shrink(f["input"]["spec"], f["kind"], f["input"]["focus"])
@@ -642,8 +669,14 @@ def replay(ctx, path):
             print("  proof problem: %s %s" % (p.get("theorem"), p.get("what")))
         print("replay %s: %s" % (path, "passes" if ok else "still fails"))
         return 0 if ok else 1
-    spec = inp["spec"]
-    run_specs(ctx, [spec], nproc=1)
+    if "world" in inp:
+        w = dict(inp["world"])
+        w.setdefault("features", [])
+        w.setdefault("shape", "replay")
+        w["requests"] = [inp["request"]]
+        c13walk.run_worlds(ctx, [w], nproc=1)
+    else:
+        run_specs(ctx, [inp["spec"]], nproc=1)
     bad = [f for f in ctx.failures if not ctx._known(f)] or ctx.disagreements
     for f in ctx.failures[:5]:
         print("  %s: %s" % (f["kind"], f["what"]))
